@@ -22,7 +22,11 @@ RULE = ("typed random template IR: data strings and string literals whose every 
         "surrounded by a unique 5-digit nonce, pushed through every built-in filter (data-controlled "
         "arguments; xmlattr also with data-controlled and nonce'd literal attribute NAMES that pass the documented "
         "key validation - metacharacters < \" ' & - as dict-display keys, data dicts, dict(**d) / dict(d) / "
-        "dict(d|items) / dict(d.items()) calls, optionally through {% set %}), + ~ % *, str/Markup methods, tests, macros (positional/default/kw/varargs/kwargs), "
+        "dict(d|items) / dict(d.items()) calls, optionally through {% set %}; urlize also over long URLs (http/https/www, "
+        "metacharacters in path, query or fragment, metacharacter-free remainder) with a trim_url_limit placed relative "
+        "to the URL's own metacharacters - just after the first one, at / shortly past the end of each metacharacter "
+        "group, inside the remainder, very short, beyond the URL's length, random - positional or by keyword, so the "
+        "shortened visible label keeps whole data metacharacters), + ~ % *, str/Markup methods, tests, macros (positional/default/kw/varargs/kwargs), "
         "call blocks and caller arguments, set blocks, FILTERED set blocks ({% set x | f(args) %}), filter blocks, loops (recursive, loop.cycle), "
         "include, import (macro and variable), blocks, self.block(), extends/super, joiner, namespace; "
         "autoescape static True, select_autoescape by DictLoader template name, or {% autoescape true|flag %} "
@@ -70,7 +74,8 @@ FLOORS = {
               "counters": {"rendered_ok": 600, "nonces_arrived_escaped": 3000, "mode.static": 150,
                            "mode.selector": 60, "mode.runtime": 200, "control_leaks_detected": 16,
                            "filter.indent": 40, "filter.join": 60, "filter.replace": 30, "filter.urlize": 15,
-                           "filter.xmlattr": 15, "xmlattr_names_arrived_escaped": 8, "filter.tojson": 15, "filter.truncate": 10, "filter.wordwrap": 10,
+                           "filter.xmlattr": 15, "urlize.trim_url_limit": 5, "urlize_labels_trimmed": 5,
+                           "urlize_trimmed_labels_with_escaped_meta": 3, "xmlattr_names_arrived_escaped": 8, "filter.tojson": 15, "filter.truncate": 10, "filter.wordwrap": 10,
                            "filter.format": 10, "filter.striptags": 8, "construct.cap.macro": 20,
                            "construct.cap.setblock": 20, "construct.callblock": 40, "construct.include": 15,
                            "construct.cap.import_macro": 10, "construct.xblock": 15,
@@ -92,7 +97,8 @@ FLOORS = {
                  "counters": {"rendered_ok": 30000, "nonces_arrived_escaped": 150000, "mode.static": 7000,
                               "mode.selector": 3500, "mode.runtime": 10000, "control_leaks_detected": 16,
                               "filter.indent": 800, "filter.join": 1200, "filter.replace": 600, "filter.urlize": 300,
-                              "filter.xmlattr": 300, "xmlattr_names_arrived_escaped": 1000, "filter.tojson": 300, "filter.truncate": 200,
+                              "filter.xmlattr": 300, "urlize.trim_url_limit": 100, "urlize_labels_trimmed": 100,
+                              "urlize_trimmed_labels_with_escaped_meta": 60, "xmlattr_names_arrived_escaped": 1000, "filter.tojson": 300, "filter.truncate": 200,
                               "filter.wordwrap": 200, "filter.format": 200, "filter.striptags": 150,
                               "construct.cap.macro": 400, "construct.cap.setblock": 400,
                               "construct.callblock": 800, "construct.include": 300,
@@ -936,6 +942,15 @@ def analyse(ctx, case, report=True):
         ctx.count("xmlattr_key." + form)
         if O.key_passes_validation(k) and (O.escaped_form(k) + '="') in out:
             ctx.count("xmlattr_names_arrived_escaped")
+    if IR.uses(case, "urlize"):
+        # visible link labels that urlize shortened (documented: trim_url_limit shortens the
+        # displayed URL; the shortened text ends in '...') and that still carry a whole
+        # nonce-bracketed metacharacter of the datum, in escaped form
+        for m in _A_LABEL.finditer(out):
+            if m.group(1).endswith("..."):
+                ctx.count("urlize_labels_trimmed")
+                if _ESC_GROUP.search(m.group(1)):
+                    ctx.count("urlize_trimmed_labels_with_escaped_meta")
     i18n = case.get("i18n")
     if i18n:
         style = "newstyle" if i18n.get("newstyle") else "oldstyle"
@@ -982,6 +997,10 @@ def analyse(ctx, case, report=True):
     return nfound
 
 
+_A_LABEL = re.compile(r'<a href="[^"<>]*"[^<>]*>([^<>]*)</a>')
+_ESC_GROUP = re.compile(r"(9[0-8]{4})&(?:lt|gt|#34|#39);\1")
+
+
 def i18n_variable_nonces(case):
     """-> [(kind, nonces of the data/literal leaves under the variables of one trans block /
     gettext-family call)], kind = 'trans' | 'trans:context' | 'call:<func>'"""
@@ -1010,6 +1029,9 @@ def count_constructs(ctx, case, seen):
             if t == "f":
                 seen.add(n[1])
                 ctx.count("filter." + n[1])
+                if n[1] == "urlize" and any(a[0] == "trim_url_limit" or (a[0] is None and j == 0)
+                                            for j, a in enumerate(n[3])):
+                    ctx.count("urlize.trim_url_limit")
                 if n[1] == "map" and n[3] and n[3][0][0] is None and n[3][0][1][0] == "klit":
                     seen.add(n[3][0][1][1])
                     ctx.count("filter." + n[3][0][1][1])
